@@ -37,8 +37,88 @@ fn bc6(out: &mut Out, thorough: bool, rng: &mut Rng) {
     for _ in 0..(if thorough { 20000 } else { 1500 }) { let v = rand128(rng); crate::c03::emit_p(out, 11 + rng.below(2) as usize, false, rng.below(3) as usize, &v.to_le_bytes()); out.count("bc6_random"); }
 }
 
+/// first bit of the index data of each BC7 mode (the index data fills the block up to bit 128)
+const INDEX_START: [u32; 8] = [83, 82, 99, 98, 50, 66, 65, 98];
+/// writes a single-subset index list: pixel 0 is stored with one bit less (its top bit is implied 0)
+fn put_indexes(v: &mut u128, start: u32, bits: u32, values: &[u8; 16]) -> u32 {
+    let mut at = start;
+    for (i, &x) in values.iter().enumerate() {
+        let n = if i == 0 { bits - 1 } else { bits };
+        let mask = (1u128 << n) - 1;
+        *v = (*v & !(mask << at)) | ((x as u128 & mask) << at);
+        at += n;
+    }
+    at
+}
+/// index patterns real encoders emit all the time and random payloads never contain: solid blocks (every index
+/// equal), two-valued blocks, ramps
+fn patterns(bits: u32, rng: &mut Rng) -> Vec<[u8; 16]> {
+    let half = 1u8 << (bits - 1);
+    let mut v: Vec<[u8; 16]> = Vec::new();
+    for k in 0..half { v.push([k; 16]); }                                         // solid (pixel 0 can only hold the lower half)
+    for _ in 0..3 { let (a, b) = (rng.below(half as u64) as u8, rng.below(2 * half as u64) as u8); let mut p = [b; 16]; p[0] = a; v.push(p);   // solid except the anchor
+        let mut q = [a; 16]; for x in q.iter_mut().skip(1) { if rng.below(2) == 0 { *x = b; } } v.push(q); }                    // two-valued
+    let mut ramp = [0u8; 16]; for (i, x) in ramp.iter_mut().enumerate() { *x = (i as u8) % (2 * half); } ramp[0] %= half; v.push(ramp);
+    v
+}
+fn structured(out: &mut Out, thorough: bool, rng: &mut Rng) {
+    let reps = if thorough { 12 } else { 2 };
+    let mut n = 0usize;
+    // ---- BC7 single-subset modes: 4 (2-bit + 3-bit lists, index selector), 5 (2 + 2), 6 (4)
+    for mode in [4u32, 5, 6] {
+        let lists: &[u32] = match mode { 4 => &[2, 3], 5 => &[2, 2], _ => &[4] };
+        for head in 0..(1u128 << HEAD_BITS[mode as usize]) {
+            let pa = patterns(lists[0], rng);
+            let pb = if lists.len() == 2 { patterns(lists[1], rng) } else { vec![[0u8; 16]] };
+            for ia in &pa { for ib in &pb { for _ in 0..reps {
+                let mut v = u128::from_le_bytes(block_of(mode, head, rand128(rng)));
+                let at = put_indexes(&mut v, INDEX_START[mode as usize], lists[0], ia);
+                if lists.len() == 2 { let end = put_indexes(&mut v, at, lists[1], ib); debug_assert_eq!(end, 128); } else { debug_assert_eq!(at, 128); }
+                n += 1;
+                crate::c03::emit(out, 10, n % 4 == 1, n % 2 == 0, &v.to_le_bytes());
+                out.count(&format!("bc7_structured_mode_{mode}"));
+            } } }
+        }
+    }
+    // ---- BC7 multi-subset modes: constant index bits (all indexes 0 / all bits set) behind random endpoints
+    for mode in [0u32, 1, 2, 3, 7] {
+        for head in 0..(1u128 << HEAD_BITS[mode as usize]) {
+            for fill in [0u128, u128::MAX] { for _ in 0..reps.min(3) {
+                let mut v = u128::from_le_bytes(block_of(mode, head, rand128(rng)));
+                let m = u128::MAX << INDEX_START[mode as usize];
+                v = (v & !m) | (fill & m);
+                n += 1;
+                crate::c03::emit(out, 10, n % 4 == 1, n % 2 == 0, &v.to_le_bytes());
+                out.count(&format!("bc7_structured_mode_{mode}"));
+            } }
+        }
+    }
+    // ---- BC6H: one-region modes (4-bit list from bit 65), two-region modes (constant index bits from bit 82)
+    for &(prefix, bits) in &[(0b00011u128, 5u32), (0b00111, 5), (0b01011, 5), (0b01111, 5)] {
+        for ia in &patterns(4, rng) { for _ in 0..reps {
+            let mut v = (rand128(rng) << bits) | prefix;
+            let end = put_indexes(&mut v, 65, 4, ia); debug_assert_eq!(end, 128);
+            n += 1;
+            for kind in [11usize, 12] { crate::c03::emit_p(out, kind, false, n % 3, &v.to_le_bytes()); }
+            out.count("bc6_structured_one_region");
+        } }
+    }
+    for &(prefix, bits) in &[(0b00u128, 2u32), (0b01, 2), (0b00010, 5), (0b00110, 5), (0b01010, 5), (0b01110, 5), (0b10010, 5), (0b10110, 5), (0b11010, 5), (0b11110, 5)] {
+        for part in 0..32u128 { for fill in [0u128, u128::MAX] {
+            let mut v = (rand128(rng) << bits) | prefix;
+            v = (v & !(0x1Fu128 << 77)) | (part << 77);
+            let m = u128::MAX << 82;
+            v = (v & !m) | (fill & m);
+            n += 1;
+            for kind in [11usize, 12] { crate::c03::emit_p(out, kind, false, n % 3, &v.to_le_bytes()); }
+            out.count("bc6_structured_two_region");
+        } }
+    }
+}
+
 pub fn run(out: &mut Out, thorough: bool, rng: &mut Rng) {
     bc6(out, thorough, rng);
+    structured(out, thorough, rng);
     let reps = if thorough { 24 } else { 3 };
     let mut n = 0usize;
     for mode in 0..8u32 {
